@@ -255,6 +255,8 @@ def parseOp (s : String) : Option Op :=
     | "A", [k, v] => some (.append k v)
     | "U", fs => some (.update (pairsOf fs))
     | "Ud", fs => some (.update (pairsOf fs))     -- the same pairs handed over as a dict
+    | "Uh", fs => some (.update (pairsOf fs))     -- … as a Headers object (lower-case distinct names)
+    | "Um", fs => some (.update (pairsOf fs))     -- … as a MutableHeaders object
     | "F", [k, d] => some (.setdefault k d)
     | "D", [k] => some (.del k)
     | "P", [k] => some (.pop k none)
